@@ -73,6 +73,46 @@ theorem linear_velocity_is_omega_rp {el : Ell} (h : Valid el) (lat : ℝ) :
   ⟨_, _, linear_velocity_eq h lat, rp_eq h lat, rfl⟩
 
 
+/-- Boundary values of the parallel radius: `rp = a` on the equator and `rp = 0` at both poles (hence the linear
+    speed is `ω a` on the equator and 0 at the poles). -/
+theorem rp_equator_and_poles {el : Ell} (h : Valid el) :
+    rp el 0 = .ok el.a ∧ rp el 90 = .ok 0 ∧ rp el (-90) = .ok 0 ∧
+    linear_velocity el 0 = .ok (el.omega * el.a) ∧ linear_velocity el 90 = .ok 0 := by
+  have h0 : pradians 0 = 0 := by simp [pradians]
+  have hp : pradians 90 = π / 2 := by unfold pradians; ring
+  have hn : pradians (-90) = -(π / 2) := by unfold pradians; ring
+  refine ⟨?_, ?_, ?_, ?_, ?_⟩
+  · rw [rp_eq h, h0, Real.cos_zero, Real.sin_zero]; congr 1; simp
+  · rw [rp_eq h, hp, Real.cos_pi_div_two]; congr 1; simp
+  · rw [rp_eq h, hn, Real.cos_neg, Real.cos_pi_div_two]; congr 1; simp
+  · rw [linear_velocity_eq h, h0, Real.cos_zero, Real.sin_zero]; congr 1; simp
+  · rw [linear_velocity_eq h, hp, Real.cos_pi_div_two]; congr 1; simp
+
+/-- `Earth.rho` (Meeus' trigonometric series for the IAU 1976 ellipsoid): it is even in the latitude, equals exactly 1
+    on the equator, `0.9966472` at the poles — the ratio `b/a = 1 − 1/298.257` of IAU76 to 1e-7 — and stays between
+    these two values for every latitude. -/
+theorem rho_series (lat : ℝ) :
+    rho (-lat) = rho lat ∧ rho 0 = 1 ∧ rho 90 = 0.9966472 ∧ |rho 90 - IAU76.b / IAU76.a| < 1e-7 ∧
+    0.9966472 ≤ rho lat ∧ rho lat ≤ 1 := by
+  have hneg : pradians (-lat) = -pradians lat := by unfold pradians; ring
+  have h0 : pradians 0 = 0 := by simp [pradians]
+  have h90 : rho 90 = 0.9966472 := by
+    have hp2 : 2.0 * pradians 90 = π := by unfold pradians; norm_num; ring
+    have hp4 : 4.0 * pradians 90 = 2 * π := by unfold pradians; norm_num; ring
+    unfold rho pcos; dsimp only; rw [hp2, hp4, Real.cos_pi, Real.cos_two_pi]; norm_num
+  refine ⟨?_, ?_, h90, ?_, ?_, ?_⟩
+  · unfold rho pcos; dsimp only; rw [hneg, mul_neg, mul_neg, Real.cos_neg, Real.cos_neg]
+  · unfold rho pcos; dsimp only; rw [h0, mul_zero, mul_zero, Real.cos_zero]; norm_num
+  · rw [h90, b_eq]; norm_num [IAU76, abs_lt]
+  all_goals
+    have h4 : Real.cos (4.0 * pradians lat) = 2 * Real.cos (2.0 * pradians lat) ^ 2 - 1 := by
+      rw [show (4.0 : ℝ) * pradians lat = 2 * (2.0 * pradians lat) by norm_num; ring, Real.cos_two_mul]
+    have hx1 := Real.neg_one_le_cos (2.0 * pradians lat)
+    have hx2 := Real.cos_le_one (2.0 * pradians lat)
+    unfold rho pcos; dsimp only; rw [h4]
+    norm_num
+    nlinarith
+
 /-! ## Meridian radius of curvature -/
 
 /-- "the meridian radius of curvature runs from b^2/a at the equator …" -/
@@ -516,6 +556,50 @@ theorem parallax_ecliptical_south_latitude {lat dist : ℝ} (obl : ℝ) (h1 : -9
       rw [Complex.arg_neg_iff]; show ezz lat 0 obl 0 dist 0 < 0; rw [hez]; exact hsin
     unfold elat
     exact mul_neg_of_neg_of_pos this (by positivity)
+
+/-- Behaviour at the pole ("poles included"): as the latitude tends to 90° the observer's coordinates tend to
+    `(ρ cos φ', ρ sin φ') = (0, b/a + h/a)` — the polar radius plus the height, the height term being kept.  (Over ℝ the
+    value AT 90° is not used: Mathlib's `tan (π/2)` is a junk 0, while binary64 `tan(radians(90))` is 1.6e16; the limit
+    is the statement that is true of both.) -/
+theorem rho_pole_limit {el : Ell} (h : Valid el) (height : ℝ) :
+    Tendsto (fun lat => valueOr 0 (rho_sinphi el lat height)) (𝓝[<] 90) (𝓝 (el.b / el.a + height / el.a)) ∧
+    Tendsto (fun lat => valueOr 0 (rho_cosphi el lat height)) (𝓝[<] 90) (𝓝 0) := by
+  have hpi := Real.pi_pos
+  have hf : 0 < 1 - el.f := by linarith [h.f_lt_one]
+  have hx : Tendsto (fun lat : ℝ => pradians lat) (𝓝[<] 90) (𝓝[<] (π / 2)) := by
+    apply tendsto_nhdsWithin_of_tendsto_nhds_of_eventually_within
+    · have hc : Continuous (fun lat : ℝ => pradians lat) := by unfold pradians; fun_prop
+      have := (hc.tendsto 90).mono_left (nhdsWithin_le_nhds (s := Set.Iio 90))
+      have e : pradians 90 = π / 2 := by unfold pradians; ring
+      rwa [e] at this
+    · filter_upwards [self_mem_nhdsWithin] with lat hlat
+      have : lat < 90 := hlat
+      show pradians lat < π / 2
+      unfold pradians; nlinarith
+  have hx' : Tendsto (fun lat : ℝ => pradians lat) (𝓝[<] 90) (𝓝 (π / 2)) := hx.mono_right nhdsWithin_le_nhds
+  have htan : Tendsto (fun lat => (1 - el.f) * Real.tan (pradians lat)) (𝓝[<] 90) atTop :=
+    (Real.tendsto_tan_pi_div_two.comp hx).const_mul_atTop hf
+  have hu : Tendsto (fun lat => Real.arctan ((1 - el.f) * Real.tan (pradians lat))) (𝓝[<] 90) (𝓝 (π / 2)) :=
+    (Real.tendsto_arctan_atTop.mono_right nhdsWithin_le_nhds).comp htan
+  have hsinu := (Real.continuous_sin.tendsto (π / 2)).comp hu
+  have hcosu := (Real.continuous_cos.tendsto (π / 2)).comp hu
+  have hsinx := (Real.continuous_sin.tendsto (π / 2)).comp hx'
+  have hcosx := (Real.continuous_cos.tendsto (π / 2)).comp hx'
+  rw [Real.sin_pi_div_two] at hsinu hsinx
+  rw [Real.cos_pi_div_two] at hcosu hcosx
+  have hba : el.b / el.a = 1 - el.f := by rw [b_eq]; field_simp [h.a_pos.ne']
+  constructor
+  · have := (hsinu.const_mul (1 - el.f)).add (hsinx.const_mul (height / el.a))
+    rw [mul_one, mul_one] at this
+    rw [hba]
+    refine this.congr' ?_
+    filter_upwards with lat
+    simp only [rho_sinphi_eq h, valueOr, Function.comp]
+  · have := hcosu.add (hcosx.const_mul (height / el.a))
+    rw [mul_zero, add_zero] at this
+    refine this.congr' ?_
+    filter_upwards with lat
+    simp only [rho_cosphi_eq h, valueOr, Function.comp]
 
 /-- The hypotheses of `parallax_ecliptical_south_latitude` are satisfiable (β = -10°, 1 AU). -/
 example : sin_pi0 / 1 < Real.cos (pradians (-10)) := by
